@@ -38,6 +38,9 @@ func c13Record(in c13Input, workdir string, tags []string) (Record, *c13Case) {
 		if in.ReadFail {
 			rec.Tags = append(rec.Tags, "hist-read-fails")
 		}
+		if in.File {
+			rec.Tags = append(rec.Tags, "hist-real-filecache")
+		}
 		wf := in.InitWFail
 		for _, op := range in.Ops {
 			wf = wf || op.WriteFail
@@ -205,6 +208,32 @@ func runC13(o Opts) {
 	r := NewRand(o.Seed, 13)
 	for i := 0; i < nh; i++ {
 		emit(c13GenHist(r), nil, "")
+	}
+	// (c) systematically: for a few histories, the k-th cache write fails, for every k
+	rk := NewRand(o.Seed, 131)
+	for i, made := 0, 0; i < 400 && made < 10; i++ {
+		base := c13GenHist(rk)
+		base.InitWFail = false
+		var writers []int
+		for k := range base.Ops {
+			base.Ops[k].WriteFail = false
+			if op := base.Ops[k].Op; op == "lookup" || op == "poll" || op == "close" {
+				writers = append(writers, k)
+			}
+		}
+		if len(writers) < 3 {
+			continue
+		}
+		made++
+		v := base
+		v.InitWFail = true
+		emit(v, []string{"hist-kth-write-fails"}, "")
+		for _, k := range writers {
+			v := base
+			v.Ops = append([]c13Op{}, base.Ops...)
+			v.Ops[k].WriteFail = true
+			emit(v, []string{"hist-kth-write-fails"}, "")
+		}
 	}
 	r2 := NewRand(o.Seed, 1313)
 	c13GenDocs(r2, nd, func(in c13Input, tags []string) { emit(in, tags, "") })
